@@ -379,26 +379,30 @@ func checkC09(c *core.Ctx) {
 		}
 	})
 
-	// a long but ordinary piece on a machine with a modest amount of memory to give: 80,000 chords (about 450 KB of
-	// chord text) under a data segment limit of 1 GiB, thorough also 160,000 chords under 2 GiB. What is demanded
-	// is the form of the outcome - no runtime fatal error, and success since the piece is valid -, the limit is more
-	// than 2000 times the size of the input. (The repaired tree needs less than 650 MB / 1.3 GB for every command.)
+	// a long but ordinary piece on a machine with a modest amount of memory to give: tens of thousands of chords
+	// (200 - 700 KB of chord text, or the instances document of such a piece) under a data segment limit of 1 GiB,
+	// thorough also twice the piece under 2 GiB. What is demanded is the form of the outcome - no runtime fatal
+	// error, and success since the piece is valid -, and the limit is more than 1500 times the size of the input.
+	// The size per command is chosen so that the repaired tree needs at most 0.4 of the limit (measured: the
+	// smallest limit it survives varies by some 15% from run to run with the timing of the garbage collector)
+	// and the tree before F-45 at least 1.7 times the limit.
 	memCmds := []struct {
-		name string
-		args []string
-		text bool
+		name   string
+		args   []string
+		text   bool
+		chords int
 	}{
-		{"text parse", []string{"text", "parse"}, true},
-		{"text conv syllable", []string{"text", "conv", "syllable"}, true},
-		{"write parse", []string{"write", "parse"}, false},
-		{"write conv", []string{"write", "conv", "-c", "cmt"}, false},
-		{"write", []string{"write"}, false},
-		{"write event", []string{"write", "event", "--track", "2"}, false},
-		{"gen attr", []string{"gen", "attr", "-d", "60000"}, false},
+		{"text parse", []string{"text", "parse"}, true, 40000},
+		{"text conv syllable", []string{"text", "conv", "syllable"}, true, 120000},
+		{"write parse", []string{"write", "parse"}, false, 60000},
+		{"write conv", []string{"write", "conv", "-c", "cmt"}, false, 80000},
+		{"write", []string{"write"}, false, 60000},
+		{"write event", []string{"write", "event", "--track", "2"}, false, 60000},
+		{"gen attr", []string{"gen", "attr", "-d"}, false, 100000},
 	}
-	memSizes := []struct{ chords, dataKB int }{{80000, 1 << 20}}
+	memSizes := []struct{ factor, dataKB int }{{1, 1 << 20}}
 	if !c.Quick() {
-		memSizes = append(memSizes, struct{ chords, dataKB int }{160000, 2 << 20})
+		memSizes = append(memSizes, struct{ factor, dataKB int }{2, 2 << 20})
 	}
 	var memRSS int64
 	c.Stream("memory", len(memCmds)*len(memSizes), func(i int, r *rand.Rand) {
@@ -412,15 +416,16 @@ func checkC09(c *core.Ctx) {
 			fmt.Fprintf(&text, "%s%s[1] ", roots[ri], sy.text)
 			fmt.Fprintf(&doc, "- chord: {degree: \"%d\", name: %s}\n  values: [\"1\"]\n", ri+1, jq(sy.name))
 		}
-		unit, n := doc.String(), sz.chords/4
+		chords := mc.chords * sz.factor
+		unit, n := doc.String(), chords/4
 		if mc.text {
 			unit = text.String() + "\n"
 		}
 		var in []byte
 		if mc.name != "gen attr" {
 			in = []byte(strings.Repeat(unit, n))
-		} else if i >= len(memCmds) {
-			mc.args = []string{"gen", "attr", "-d", "120000"}
+		} else {
+			mc.args = append(append([]string{}, mc.args...), fmt.Sprint(chords))
 		}
 		res := c.Crd.Run(runner.Opt{Stdin: in, DataKB: sz.dataKB, CPUSec: 600}, mc.args...)
 		det := map[string]any{"unit": unit, "repeated": n, "input_len": len(in), "data_limit_kb": sz.dataKB, "argv": runner.ShellQuote(mc.args)}
@@ -428,10 +433,10 @@ func checkC09(c *core.Ctx) {
 			return
 		}
 		if !res.OK() {
-			c.Violate("memory", i, "memory:refused:"+mc.name, fmt.Sprintf("`crd %s` refuses a valid piece of %d chords under a data limit of %d KiB", mc.name, sz.chords, sz.dataKB), mergeMaps(det, map[string]any{"run": obs(res)}))
+			c.Violate("memory", i, "memory:refused:"+mc.name, fmt.Sprintf("`crd %s` refuses a valid piece of %d chords under a data limit of %d KiB", mc.name, chords, sz.dataKB), mergeMaps(det, map[string]any{"run": obs(res)}))
 			return
 		}
-		c.Nontrivial(fmt.Sprintf("memory|%s|%d|%s", mc.name, sz.chords, unit))
+		c.Nontrivial(fmt.Sprintf("memory|%s|%d|%s", mc.name, chords, unit))
 		c.Extra("max_rss_kb_long_piece", maxInt64(&memRSS, res.MaxRSSKB))
 	})
 
